@@ -2064,15 +2064,20 @@ class NamespaceSet(MutableSet[_NSO], Generic[_NSO]):
                 if isinstance(other_object, Referable):
                     backend, case_sensitive = self._backend["id_short"]
                     referable = backend[other_object.id_short if case_sensitive else other_object.id_short.upper()]
-                    referable.update_from(other_object, update_source=True)  # type: ignore
+                    if type(referable) is not type(other_object):
+                        # an object of another class cannot be updated in place: replace it
+                        objects_to_remove.append(referable)
+                        objects_to_add.append(other_object)
+                    else:
+                        referable.update_from(other_object, update_source=True)  # type: ignore
                 elif isinstance(other_object, Qualifier):
                     backend, case_sensitive = self._backend["type"]
                     qualifier = backend[other_object.type if case_sensitive else other_object.type.upper()]
-                    # qualifier.update_from(other_object, update_source=True) # TODO: What should happen here?
+                    self._update_item_attributes(qualifier, other_object)
                 elif isinstance(other_object, Extension):
                     backend, case_sensitive = self._backend["name"]
                     extension = backend[other_object.name if case_sensitive else other_object.name.upper()]
-                    # extension.update_from(other_object, update_source=True) # TODO: What should happen here?
+                    self._update_item_attributes(extension, other_object)
                 else:
                     raise TypeError("Type not implemented")
             except KeyError:
@@ -2085,11 +2090,22 @@ class NamespaceSet(MutableSet[_NSO], Generic[_NSO]):
                         if not backend_other.get(self._get_attribute(item, attr_name, case_sensitive)):
                             # referable does not exist in the other NamespaceSet
                             objects_to_remove.append(item)
+        # remove first: the objects to add must only be checked against the objects that stay
+        for object_to_remove in objects_to_remove:
+            self.remove(object_to_remove)  # type: ignore
         for object_to_add in objects_to_add:
             other.remove(object_to_add)
             self.add(object_to_add)  # type: ignore
-        for object_to_remove in objects_to_remove:
-            self.remove(object_to_remove)  # type: ignore
+
+    @staticmethod
+    def _update_item_attributes(item: _NSO, other_item: _NSO) -> None:
+        """
+        Update a contained object that is not a :class:`Referable` (a :class:`Qualifier` or an :class:`Extension`) in
+        place from an object with the same identifying attribute.
+        """
+        for name, var in vars(other_item).items():
+            if name != "parent":
+                vars(item)[name] = var
 
 
 class OrderedNamespaceSet(NamespaceSet[_NSO], MutableSequence[_NSO], Generic[_NSO]):
